@@ -21,10 +21,27 @@ func (fc *FCtx) execBlock(stmts []ast.Stmt, st *State) *Flow {
 	if fc.anchored == nil {
 		fc.anchored = map[string]bool{}
 	}
+	// a changed function whose asserted statement moved into a helper it now calls (extract-function refactoring): the
+	// assert is anchored at that statement inside the inlined helper; names resolve in the helper first, then in the caller
+	moved := !own && fc.changed && len(fc.frames) == 2 && fc.frames[1].inlined && fc.C != nil && len(fc.C.NamedAsserts) > 0 && len(stmts) > 0 && len(fc.inlineCallPos) > 0
+	if moved && fc.ownDefs == nil {
+		fc.ownDefs = map[string]bool{}
+		ast.Inspect(fc.FI.Body(), func(n ast.Node) bool {
+			if st, ok := n.(ast.Stmt); ok {
+				for _, d := range definedNames(st) {
+					fc.ownDefs[d] = true
+				}
+			}
+			return true
+		})
+	}
 	checkAsserts := func(cs []*Clause, label string, pos token.Pos) {
 		for k, a := range cs {
 			env := fc.newEnv(cur, fc.entry, pos)
 			env.specials = fc.curSpecials
+			if moved {
+				env.fbPos, env.fbPkg = fc.inlineCallPos[len(fc.inlineCallPos)-1], fc.frames[0].fi.Pkg
+			}
 			t, ok := fc.clauseBool(a, env)
 			if !ok {
 				// an assert is an obligation of its own: one that can no longer even be stated over the changed body
@@ -43,6 +60,21 @@ func (fc *FCtx) execBlock(stmts []ast.Stmt, st *State) *Flow {
 		var defs []string
 		if top {
 			checkAsserts(fc.C.Asserts[i], fmt.Sprint(i), s.Pos())
+		}
+		if moved {
+			for _, d := range definedNames(s) {
+				if !fc.ownDefs[d] {
+					defs = append(defs, d)
+				}
+			}
+			for _, d := range defs {
+				for _, key := range anchorKeys("before", d, fc.seenDef[d]+1) {
+					if cs := fc.C.NamedAsserts[key]; len(cs) > 0 {
+						fc.anchored[key] = true
+						checkAsserts(cs, strings.Replace(key, ":", "-", 1), s.Pos())
+					}
+				}
+			}
 		}
 		if own {
 			// name-anchored asserts attach to the first statement (in execution order, at any nesting depth
@@ -66,7 +98,7 @@ func (fc *FCtx) execBlock(stmts []ast.Stmt, st *State) *Flow {
 		f := fc.execStmt(s, cur, "")
 		out.absorb(f)
 		cur = fc.merge(f.normal)
-		if own {
+		if own || moved {
 			for _, d := range defs {
 				fc.seenDef[d]++
 				for _, key := range anchorKeys("after", d, fc.seenDef[d]) {
